@@ -244,6 +244,11 @@ impl Runtime {
 
     /// Interrupt the program. Displays `BREAK` error.
     pub fn interrupt(&mut self) {
+        if let State::RuntimeError(_) = self.state {
+            // Already stopping to report STOP or an error. Taking the
+            // interrupt as well would overwrite the continuation.
+            return;
+        }
         self.cont = State::Interrupt;
         std::mem::swap(&mut self.state, &mut self.cont);
         self.cont_pc = self.pc;
